@@ -22,7 +22,7 @@ def run(tier, seed):
                 '(native replay)',
                 'not decided / not reachable: tokenising RAW/DYR text, the yaml-driven DYR mapping, three-winding transformers, '
                 'xlsx / json round trips (pandas, openpyxl): bounded native stand-in on three stock cases only')
-    items = [(F.numparam_add('C13'),), (F.sanitize('C13'),), (F.mpc2system('C13'),), (F.system2mpc('C13'),),
+    items = [(F.numparam_add('C13'),), (F.sanitize('C13'),), (F.mpc2system('C13'), None, F.replay_mpc_roundtrip), (F.system2mpc('C13'), None, F.replay_mpc_roundtrip),
              (F.psse_bus('C13'),), (F.psse_load('C13'),), (F.psse_fshunt('C13'),), (F.psse_gen('C13'),), (F.psse_line('C13'),),
              (F.psse_transf2('C13'), F.WIT_TRANSF, F.replay_transf)]
     # the table handed to the xlsx / json writers (cache.df_in): input-base values, converters applied to those
@@ -42,6 +42,13 @@ def run(tier, seed):
         elif r.get('confirmed'):
             pack.violation(name, {'native': r})
     F.bounded_file_roundtrip(pack, 'C13')
+    mname = 'C13/andes/io/matpower.py:system2mpc;mpc2system/bounded:export-and-re-import-reproduce-the-branch-data-and-the-power-flow'
+    r = native_guard(pack, mname, F.replay_mpc_roundtrip)
+    if r is not None:
+        pack.bounded.append({'function': 'system2mpc / mpc2system (round trip)', 'cases': r.get('tried', 0), 'counted_as_proved': False,
+                             'kind': 'bounded native: static part of ieee14.json, with and without the optional Line.trans column'})
+        if r.get('confirmed'):
+            pack.violation(mname, {'bounded': True, 'inputs': r.get('inputs'), 'observed': r.get('observed'), 'native_cmd': r.get('native_cmd')})
     from contracts import bounded_raw_crosscheck as BRX
     name = 'C13/andes/io/psse.py:read;_parse_*_v33/bounded:raw-file-and-xlsx-file-of-the-same-stock-case-give-the-same-input-parameters'
     r = native_guard(pack, name, BRX.run)
